@@ -126,6 +126,8 @@ def run(repo, chk):
         ok = ok and len(yn) == 1 and Q.is_interact(yn[0].fields.get("value"))
     chk.ob("R04.2", "yield:yielded-value-is-interact", ok, "ptera/transform.py (visit_Yield)", "the generator yields what interact('#yield', ...) returns")
 
+    from .shared import routing_obligations
+    routing_obligations(repo, chk, "R04.4", "offer")
     # ---------------- R04.3
     free_ix = [(p, ix, par) for p in H.get("visit_FunctionDef", []) for t, par, f in parents(p.template) if Q.is_interact(t)
                for ix in [Q.Interact(t)] if isinstance(ix.symname, Ident) and ix.symname.path == "free[*]"]
